@@ -14,6 +14,9 @@ CHECKS['C08'] = dict(level='model_checking', design='1/C08',
 CHECKS['C01'] = dict(level='model_checking', design='1/C01',
      text='Every history of 2 (thorough: 3) Array operations - op kind, indices, counts and element values all symbolic - is executed on the real template code for int, a constructor-counting class and String, through one handle, a shared handle and a clone, against a reference sequence; each path ends with element-lifetime and leak checks; memory safety of every access is decided by the solver.',
      note='Bounds in evidence. Known finding C01-shared-handle-dangles-after-growth is reported as KNOWN-FINDING. Trusted: z3, engine IR semantics and heap model (realloc always moves).')
+CHECKS['C02'] = dict(level='model_checking', design='1/C02',
+     text='Histories of symbolic operations (set, operator[], remove, has/get, clear, clone) on Map<int,int>, HashMap with 2, 4 and 256 buckets (keys chosen to collide and to cross the growth threshold), Dic/HashDic with prefix-sharing and hash-colliding String keys, and the Set algebra on symbolic element sets built in two orders and table sizes, are executed on the real templates against an association-list model; enumeration, equality and leak checks on every path.',
+     note='Bounds in evidence. Trusted: z3, engine IR semantics and heap model.')
 NA = {
 }
 ALL = ['C%02d' % i for i in range(1, 21)]
